@@ -219,6 +219,9 @@ class JSONLIterator:
         """
         while 1:
             line = next(self._line_iter).lstrip()
+            # forward mode gets the line with its line break, reverse mode without:
+            # drop it, so that json.loads is handed the same thing in both directions
+            line = line.rstrip('\r\n' if isinstance(line, str) else b'\r\n')
             if not line:
                 continue
             try:
